@@ -578,10 +578,12 @@ where
         let mut keys: Vec<u64> = indices.iter().map(|(k, _)| *k).collect();
         let mut sorter = RadixSort::with_config(self.config.clone());
 
-        // Create a mapping from old key to sorted position
-        let mut key_positions = vec![0usize; keys.len()];
-        for (new_pos, &(_, old_pos)) in indices.iter().enumerate() {
-            key_positions[old_pos] = new_pos;
+        // Input positions of every key, in input order: each sorted key consumes the next
+        // unused position of that key, so equal keys keep their own values (and their order)
+        let mut positions: std::collections::HashMap<u64, std::collections::VecDeque<usize>> =
+            std::collections::HashMap::new();
+        for &(key, old_pos) in &indices {
+            positions.entry(key).or_default().push_back(old_pos);
         }
 
         sorter.sort_u64(&mut keys)?;
@@ -590,10 +592,11 @@ where
         let original_data: Vec<(K, V)> = data.iter().cloned().collect();
 
         for (new_pos, &key) in keys.iter().enumerate() {
-            // Find original position of this key
-            // SAFETY: Every key in sorted keys array came from indices, so position() always finds it
-            let old_pos = indices.iter().position(|(k, _)| *k == key).unwrap();
-            data[new_pos] = original_data[indices[old_pos].1].clone();
+            let old_pos = positions
+                .get_mut(&key)
+                .and_then(|queue| queue.pop_front())
+                .ok_or_else(|| ZiporaError::invalid_data("sorted key not found in input"))?;
+            data[new_pos] = original_data[old_pos].clone();
         }
 
         Ok(())
